@@ -13,7 +13,7 @@ from vf import foamdict, geom, hexconv, util
 from vf import xc16_ref as xr
 
 ID = "C16"
-BUDGET = {"quick": 8000, "thorough": 250000}
+BUDGET = {"quick": 7000, "thorough": 250000}
 SOFT = {"quick": 40.0, "thorough": 900.0}
 REQUIRED = [
     "kind:discrete", "kind:linear", "kind:spline", "kind:analytic", "kind:line", "kind:circle",
@@ -51,7 +51,11 @@ ASSUMPTIONS = [
     "are not resolvable by this rule and only judged for a finite, in-bounds answer. Tolerance on the returned "
     "point's distance: dense minimum (2001 samples) + 1e-4 * size (termination of a numerical optimiser).",
     "a DiscreteCurve takes integer parameters (indices) only; zero-length ranges (a == b) are outside the workload",
-    "written edge points carry 8 decimals: on-curve tolerance 1e-7 * max(1, size) (the library's TOL)",
+    "written edge points carry 8 decimals: on-curve tolerance 1e-7 * max(1, size) (the library's TOL); 'between the "
+    "parameters' is read as: vertex a, the listed points, vertex b advance strictly along the curve (a listed point that "
+    "repeats a vertex or a list in reverse order does not); the block edge is >= 15% of the parameter range long",
+    "vertices of the snapped edge are the curve's own points for two parameters away from the seam of closed curves "
+    "(a vertex that is not resolvable in the sense above is skipped)",
     "edge length: 1e-6 * length for exact kinds (the vertex parameters come from a numerical optimiser), 2% + 1.1 D otherwise",
     "the parametrisation of interpolated curves is the documented one (normalised cumulative chord length when "
     "equalize, uniform otherwise); a defining point reached at another parameter is accepted",
@@ -176,6 +180,19 @@ def fixed_cases(tier):
                 "discretize": [{"a": 0.8, "c": 0.2, "count": 7, "none_args": False}],
                 "queries": [{"t": 0.5, "dir": [0.0, 0.0, 1.0], "dist": 0.02}],
             })
+    # closest point = a defining point of a polyline seen from its convex side (a kink of the distance function)
+    out.append({
+        "mode": "curve",
+        "curve": {"kind": "linear", "family": "fixed", "equalize": False,
+                  "points": [[2.3164637568353412, 0.058009947750730984, -1.8715452336475455],
+                             [-1.510220658662356, -0.7130637490892946, 1.2783055944848103],
+                             [-1.4362457920349234, -0.7116277326823975, 1.9379079963881805],
+                             [-1.1453971363774262, -0.5218791703557348, 2.8608068377961304]]},
+        "pairs": [{"a": 0.2, "c": 0.9, "m": 0.5, "none_args": False}],
+        "discretize": [{"a": 0.0, "c": 1.0, "count": 5, "none_args": False}],
+        "queries": [{"t": 0.3333, "dir": [0.0, 0.0, 1.0], "dist": 0.1,
+                     "point": [-2.1440824223352264, -0.8260743733798642, 1.0131209804942993]}],
+    })
     return out
 
 
@@ -304,7 +321,7 @@ def _call_length(ctx, env, a, c, none_args=False):
             return float(env["lib"].get_length())
         return float(env["lib"].get_length(a, c))
     except (ValueError, IndexError) as err:
-        ctx.violation(f"length-raises:{env['tag']}:{type(err).__name__}", f"{_desc(env)}: get_length({a}, {c}) raised {err!r}")
+        ctx.violation(f"length-raises:{env['kind']}:{type(err).__name__}", f"{_desc(env)}: get_length({a}, {c}) raised {err!r}")
         return None
 
 
@@ -335,14 +352,14 @@ def _judge_lengths(ctx, env, pairs):
             tol = 1e-9 * ref.L
             ctx.count("judged:length-exact")
             if abs(lac - lref) > tol:
-                ctx.violation(f"length-not-polyline:{env['tag']}:{direction}",
+                ctx.violation(f"length-not-polyline:{env['kind']}:{direction}",
                               f"{_desc(env)}: get_length({a}, {c}) = {lac!r} but the polyline between the two curve points measures {lref!r}")
                 continue
         elif not coarse:
             tol = 0.02 * lref + 1.1 * env["deficit"] + 1e-9 * ref.L
             ctx.count("judged:length-vs-dense")
             if abs(lac - lref) > tol:
-                ctx.violation(f"length-vs-dense:{env['tag']}:{direction}",
+                ctx.violation(f"length-vs-dense:{env['kind']}:{direction}",
                               f"{_desc(env)}: get_length({a}, {c}) = {lac!r}, dense reference {lref!r} (tolerance {tol:.3e}, "
                               f"chord deficit of the defining points {env['deficit']:.3e})")
                 continue
@@ -352,7 +369,7 @@ def _judge_lengths(ctx, env, pairs):
             # bounds are the default arguments; the `length` property is the same number
             l2, l3 = _call_length(ctx, env, ref.lo, ref.hi), float(env["lib"].length)
             if l2 is not None and (abs(l2 - lac) > 1e-12 * ref.L or abs(l3 - lac) > 1e-12 * ref.L):
-                ctx.violation(f"length-defaults:{env['tag']}", f"{_desc(env)}: get_length()={lac!r}, get_length(bounds)={l2!r}, .length={l3!r}")
+                ctx.violation(f"length-defaults:{env['kind']}", f"{_desc(env)}: get_length()={lac!r}, get_length(bounds)={l2!r}, .length={l3!r}")
         if m is None:
             continue
         lam, lmc = _call_length(ctx, env, a, m), _call_length(ctx, env, m, c)
@@ -367,7 +384,7 @@ def _judge_lengths(ctx, env, pairs):
         else:
             bad = False
         if bad:
-            ctx.violation(f"length-not-additive:{env['tag']}:{direction}",
+            ctx.violation(f"length-not-additive:{env['kind']}:{direction}",
                           f"{_desc(env)}: L({a},{c}) = {lac!r} but L({a},{m}) + L({m},{c}) = {lam!r} + {lmc!r} = {lam + lmc!r}")
     return classes
 
@@ -442,6 +459,8 @@ def _judge_closest(ctx, env, queries):
         else:
             base = ref.point(_par(ref, q["t"]))
         query = base + np.asarray(q["dir"]) * (q["dist"] * ref.size)
+        if q.get("point") is not None:
+            query = np.asarray(q["point"], dtype=float)  # fixed cases give the query itself
         ctx.evaluated()
         p = lib.get_closest_param(query)
         try:
@@ -478,7 +497,15 @@ def _judge_closest(ctx, env, queries):
             ctx.count("closest:multimodal-judged")
         tol = 1e-4 * ref.size if kind != "discrete" else 1e-12 * ref.size
         if dp > dstar + tol:
-            ctx.violation(f"closest-not-closest:{kind}:{cls}",
+            where = ""
+            if kind == "linear":
+                # structural feature for the finding key: is the true closest point one of the defining points (where the
+                # distance along a polyline has a kink)?
+                # (tstar is the best of the dense samples, so "is" means within two sample steps of a knot parameter)
+                step = (ref.hi - ref.lo) / 2000.0
+                if min(abs(tstar - kn) for kn in ref.knots) <= 2 * step:
+                    where = ":closest-point-is-a-defining-point"
+            ctx.violation(f"closest-not-closest:{kind}:{cls}{where}",
                           f"{_desc(env)}: get_closest_param({query.tolist()}) = {p!r} whose point is {dp!r} away, but the "
                           f"curve point at parameter {tstar!r} is only {dstar!r} away (size {ref.size:.4g}, resolvable width {width:.3f})")
     return classes
@@ -569,7 +596,7 @@ def _judge_edge(ctx, env, e, spacing):
     try:
         length = float(edges[0].length)
     except (ValueError, IndexError) as err:
-        ctx.violation(f"edge-length-raises:{env['tag']}:{type(err).__name__}", f"{_desc(env)}: Edge.length raised {err!r} for vertices at parameters {ta}, {tb}")
+        ctx.violation(f"edge-length-raises:{env['kind']}:{type(err).__name__}", f"{_desc(env)}: Edge.length raised {err!r} for vertices at parameters {ta}, {tb}")
         return
     lref = _ref_length(env, t1, t2)
     direction = "against" if not along else "along"
@@ -583,6 +610,6 @@ def _judge_edge(ctx, env, e, spacing):
         ctx.count("judged:edge-length-approx")
         tol = 0.02 * lref + 1.1 * env["deficit"] + 1e-6 * ref.L
     if abs(length - lref) > tol:
-        ctx.violation(f"edge-length:{env['tag']}:{direction}-curve-direction",
+        ctx.violation(f"edge-length:{env['kind']}:{direction}-curve-direction",
                       f"{_desc(env)}: OnCurve edge from parameter {ta} to {tb}: Edge.length = {length!r}, curve length between the "
                       f"vertices {lref!r} (tolerance {tol:.3e})")
